@@ -17,7 +17,7 @@ from __future__ import annotations
 import ast
 
 from .. import astutil as A
-from ..alg import Interp, Obj, Poly, Undecided
+from ..alg import Closure, Interp, Obj, Poly, Undecided
 from ..dep import FlowDeps
 
 EXPLANATION = (
@@ -92,6 +92,7 @@ def run(ctx):
     r2 = ctx.rule("C16.R2", "ORDER: combine, sorted, build, _prune_and_rename return Workspace(...)/cls(...); prune and rename return _prune_and_rename(...)", "ORDER", floor=6)
     r3 = ctx.rule("C16.R3", "RAISE/SIB: _join_versions refuses different versions; channels, observations, measurements: name intersection under 'none' and duplicate count under 'outer' raise InvalidWorkspaceOperation; measurements: POI conflict and parameter-config conflict; combine checks join mode and merge compatibility before joining and joins all four sections", "RAISE", floor=12)
     r4 = ctx.rule("C16.R4", "TABLE: _prune_and_rename renames channel names in channels and observations, modifier names in modifiers, measurement parameters and POI, sample and measurement names at their site; prunes the named items in every place they occur; unknown names are refused before the rebuild", "TABLE", floor=12)
+    r6 = ctx.rule("C16.R6", "ALG: _join_items on symbolic item lists: 'none' keeps every item of both sides; 'outer' adds right items that are not identical to a left item; 'left outer' adds right items whose name is new, keeping the left version of a clash; 'right outer' the mirror image; deep merging joins the sub-lists of items with the same name; inputs are not modified", "ALG", floor=5)
     r5 = ctx.rule("C16.R5", "TABLE: sorted sorts channels, samples, measurements, parameters, observations by name and modifiers by (name, type)", "TABLE", floor=6)
 
     # ------------------------------------------------------------ R1
@@ -247,6 +248,50 @@ def run(ctx):
             ctx.violated(r3, cb, "combined specification", "the combined specification does not carry each joined section under its own key", found=str(got), node=cb.node)
     except (Undecided, KeyError, TypeError) as e:
         ctx.unrecognised(r3, cb, "combine", f"not interpretable: {e}")
+
+    # ------------------------------------------------------------ R6 join semantics
+    ji = m.funcs["_join_items"]
+    def item(name, tag, subs=None):
+        d_ = {"name": name, "payload": Poly.atom(tag)}
+        if subs is not None:
+            d_["samples"] = [{"name": n_, "payload": Poly.atom(t_)} for n_, t_ in subs]
+        return d_
+    def show(items):
+        return [(it_["name"], str(it_["payload"])) + ((tuple((x["name"], str(x["payload"])) for x in it_["samples"]),) if "samples" in it_ else ()) for it_ in items]
+    L = lambda: [item("a", "LA"), item("b", "LB")]
+    R = lambda: [item("b", "RB"), item("c", "RC"), item("a", "LA")]
+    expect = {
+        "none": [("a", "LA"), ("b", "LB"), ("b", "RB"), ("c", "RC"), ("a", "LA")],
+        "outer": [("a", "LA"), ("b", "LB"), ("b", "RB"), ("c", "RC")],
+        "left outer": [("a", "LA"), ("b", "LB"), ("c", "RC")],
+        "right outer": [("b", "RB"), ("c", "RC"), ("a", "LA")],
+    }
+    for mode, want in expect.items():
+        try:
+            li, ri = L(), R()
+            out = Interp({"_join_items": Closure(ji.node, None)}, {}, {}).call_function(ji.node, [mode, li, ri])
+            got = show(out)
+            untouched = show(li) == show(L()) and show(ri) == show(R())
+            if got == want and untouched:
+                ctx.holds(r6, f"{WS}::_join_items [{mode}]", str(got))
+            elif not untouched:
+                ctx.violated(r6, ji, f"_join_items [{mode}] inputs", "joining modifies one of its input lists", found=f"left={show(li)} right={show(ri)}")
+            else:
+                ctx.violated(r6, ji, f"_join_items [{mode}]", f"the '{mode}' join of [a, b] with [b', c, a] is not what the join mode promises", expected=str(want), found=str(got))
+        except (Undecided, KeyError, TypeError, ValueError) as e:
+            ctx.unrecognised(r6, ji, f"_join_items [{mode}]", f"not interpretable: {type(e).__name__}: {e}")
+    try:
+        li = [item("ch", "LCH", [("s1", "LS1")])]
+        ri = [item("ch", "RCH", [("s1", "RS1"), ("s2", "RS2")])]
+        out = Interp({"_join_items": Closure(ji.node, None)}, {}, {}).call_function(ji.node, ["left outer", li, ri], {"deep_merge_key": "samples"})
+        got = show(out)
+        want = [("ch", "LCH", (("s1", "LS1"), ("s2", "RS2")))]
+        if got == want and show(li) == [("ch", "LCH", (("s1", "LS1"),))]:
+            ctx.holds(r6, f"{WS}::_join_items [deep merge]", str(got))
+        else:
+            ctx.violated(r6, ji, "_join_items [deep merge]", "merging channels does not join the sample lists of equally named channels (keeping the left sample on a clash) or modifies its input", expected=str(want), found=f"{got}; left after = {show(li)}")
+    except (Undecided, KeyError, TypeError, ValueError) as e:
+        ctx.unrecognised(r6, ji, "_join_items [deep merge]", f"not interpretable: {type(e).__name__}: {e}")
 
     # ------------------------------------------------------------ R4 by interpretation
     pr = ws.methods["_prune_and_rename"]
